@@ -154,51 +154,45 @@ pub fn okv<V: Serialize>(r: String, v: &V) -> String {
     format!("ok {} {}", r, tok_bytes(serde_json::to_string(v).unwrap().as_bytes()))
 }
 
+/// complete text of an outcome (Debug and Display of errors included)
+pub fn full_text<V: std::fmt::Debug, E: std::fmt::Debug + std::fmt::Display>(r: &Result<V, E>) -> String {
+    match r {
+        Ok(v) => format!("Ok({:?})", v),
+        Err(e) => format!("Err({:?}) [{}]", e, e),
+    }
+}
+
 macro_rules! run_kind {
-    ($client:expr, $kind:expr, $asyncv:expr, $sc:expr, $ac:expr, $devty:ty, $variant:expr) => {{
+    ($client:expr, $kind:expr, $asyncv:expr, $sc:expr, $ac:expr, $sc2:expr, $ac2:expr, $devty:ty, $variant:expr) => {{
         let client = $client;
         let rt = RefreshToken::new("r".to_string());
         let u = ResourceOwnerUsername::new("u".to_string());
         let p = ResourceOwnerPassword::new("p".to_string());
         let at = AccessToken::new("t".to_string());
+        // the request goes through the twin named by the case AND through the other twin (blocking
+        // <-> future): both must produce the same outcome down to the text of every error
+        macro_rules! go {
+            ($mk:expr, $rty:ty, $okf:expr) => {{
+                let r: $rty = if $asyncv { $variant.drive($mk.request_async(&$ac)) } else { $mk.request(&$sc) };
+                let t: $rty = if $asyncv { $mk.request(&$sc2) } else { $variant.drive($mk.request_async(&$ac2)) };
+                if full_text(&r) != full_text(&t) {
+                    return format!("twins-differ this={} other={}", tok_bytes(full_text(&r).as_bytes()), tok_bytes(full_text(&t).as_bytes()));
+                }
+                render_result(r, $okf)
+            }};
+        }
         match $kind {
-            "code" => {
-                let req = client.exchange_code(AuthorizationCode::new("c".to_string()));
-                let r = if $asyncv { $variant.drive(req.request_async(&$ac)) } else { req.request(&$sc) };
-                render_result(r, |v| okv(render_token(v), v))
-            }
-            "refresh" => {
-                let req = client.exchange_refresh_token(&rt);
-                let r = if $asyncv { $variant.drive(req.request_async(&$ac)) } else { req.request(&$sc) };
-                render_result(r, |v| okv(render_token(v), v))
-            }
-            "password" => {
-                let req = client.exchange_password(&u, &p);
-                let r = if $asyncv { $variant.drive(req.request_async(&$ac)) } else { req.request(&$sc) };
-                render_result(r, |v| okv(render_token(v), v))
-            }
-            "cc" => {
-                let req = client.exchange_client_credentials();
-                let r = if $asyncv { $variant.drive(req.request_async(&$ac)) } else { req.request(&$sc) };
-                render_result(r, |v| okv(render_token(v), v))
-            }
-            "introspect" => {
-                let req = client.introspect(&at);
-                let r = if $asyncv { $variant.drive(req.request_async(&$ac)) } else { req.request(&$sc) };
-                render_result(r, |v| okv(render_intro(v), v))
-            }
-            "devauth" => {
-                let req = client.exchange_device_code();
-                let r: Result<$devty, _> = if $asyncv { $variant.drive(req.request_async(&$ac)) } else { req.request(&$sc) };
-                render_result(r, |v| okv(render_dev(v), v))
-            }
-            "revoke" => {
-                let req = client
-                    .revoke_token(StandardRevocableToken::AccessToken(AccessToken::new("t".to_string())))
-                    .unwrap();
-                let r = if $asyncv { $variant.drive(req.request_async(&$ac)) } else { req.request(&$sc) };
-                render_result(r, |_v| "ok unit".to_string())
-            }
+            "code" => go!(client.exchange_code(AuthorizationCode::new("c".to_string())), Result<_, _>, |v| okv(render_token(v), v)),
+            "refresh" => go!(client.exchange_refresh_token(&rt), Result<_, _>, |v| okv(render_token(v), v)),
+            "password" => go!(client.exchange_password(&u, &p), Result<_, _>, |v| okv(render_token(v), v)),
+            "cc" => go!(client.exchange_client_credentials(), Result<_, _>, |v| okv(render_token(v), v)),
+            "introspect" => go!(client.introspect(&at), Result<_, _>, |v| okv(render_intro(v), v)),
+            "devauth" => go!(client.exchange_device_code(), Result<$devty, _>, |v| okv(render_dev(v), v)),
+            "revoke" => go!(
+                client.revoke_token(StandardRevocableToken::AccessToken(AccessToken::new("t".to_string()))).unwrap(),
+                Result<_, _>,
+                |_v| "ok unit".to_string()
+            ),
             _ => BAD.into(),
         }
     }};
@@ -242,6 +236,15 @@ pub fn run(ws: &[&str]) -> String {
     };
     let sync_client = |_r: HttpRequest| reply();
     let async_client = |_r: HttpRequest| Delay { n: variant.k(), v: Some(reply()) };
+    // the other twin's transport (not counted)
+    let reply2 = || -> Result<HttpResponse, FakeError> {
+        let c = calls.get();
+        let r = reply();
+        calls.set(c);
+        r
+    };
+    let sync_client2 = |_r: HttpRequest| reply2();
+    let async_client2 = |_r: HttpRequest| Delay { n: 1, v: Some(reply2()) };
     let id = ClientId::new("aaa".to_string());
     let sec = ClientSecret::new("bbb".to_string());
     let t_url = TokenUrl::new("https://example.com/token".to_string()).unwrap();
@@ -253,7 +256,7 @@ pub fn run(ws: &[&str]) -> String {
             .set_introspection_url(IntrospectionUrl::new("https://example.com/i".to_string()).unwrap())
             .set_device_authorization_url(DeviceAuthorizationUrl::new("https://example.com/d".to_string()).unwrap())
             .set_revocation_url(RevocationUrl::new("https://example.com/r".to_string()).unwrap());
-        run_kind!(client, kind, asyncv, sync_client, async_client, XDev, variant)
+        run_kind!(client, kind, asyncv, sync_client, async_client, sync_client2, async_client2, XDev, variant)
     } else {
         let client = BasicClient::new(id)
             .set_client_secret(sec)
@@ -261,7 +264,7 @@ pub fn run(ws: &[&str]) -> String {
             .set_introspection_url(IntrospectionUrl::new("https://example.com/i".to_string()).unwrap())
             .set_device_authorization_url(DeviceAuthorizationUrl::new("https://example.com/d".to_string()).unwrap())
             .set_revocation_url(RevocationUrl::new("https://example.com/r".to_string()).unwrap());
-        run_kind!(client, kind, asyncv, sync_client, async_client, StandardDeviceAuthorizationResponse, variant)
+        run_kind!(client, kind, asyncv, sync_client, async_client, sync_client2, async_client2, StandardDeviceAuthorizationResponse, variant)
     };
     format!("{} calls={}", out, calls.get())
 }
@@ -551,24 +554,65 @@ pub fn interleave(ws: &[&str]) -> String {
             }) as Box<dyn Fn(HttpRequest) -> Delay<Result<HttpResponse, FakeError>> + '_>
         })
         .collect();
-    let mut futs: Vec<Pin<Box<dyn Future<Output = String> + '_>>> = vec![];
+    // what each request gets ALONE through the blocking twin, with the complete text of the
+    // outcome (Debug and Display of errors included): the interleaved outcome must be identical
+    let mut alone: Vec<String> = vec![];
+    for s in specs.iter() {
+        let sc = |_r: HttpRequest| -> Result<HttpResponse, FakeError> {
+            if s.status == 0 {
+                Err(FakeError(String::from_utf8_lossy(&s.body).to_string()))
+            } else {
+                let mut b = http::Response::builder().status(s.status);
+                if let Some(ct) = &s.ct {
+                    b = b.header(http::header::CONTENT_TYPE, http::HeaderValue::from_bytes(ct).unwrap());
+                }
+                Ok(b.body(s.body.clone()).unwrap())
+            }
+        };
+        alone.push(match s.kind.as_str() {
+            "code" => full_text(&client.exchange_code(AuthorizationCode::new("c".to_string())).request(&sc)),
+            "refresh" => full_text(&client.exchange_refresh_token(&rt).request(&sc)),
+            "password" => full_text(&client.exchange_password(&u, &p).request(&sc)),
+            "cc" => full_text(&client.exchange_client_credentials().request(&sc)),
+            "introspect" => full_text(&client.introspect(&at).request(&sc)),
+            "devauth" => {
+                let r: Result<StandardDeviceAuthorizationResponse, _> = client.exchange_device_code().request(&sc);
+                full_text(&r)
+            }
+            "revoke" => full_text(&client.revoke_token(StandardRevocableToken::AccessToken(AccessToken::new("t".to_string()))).unwrap().request(&sc)),
+            _ => return BAD.into(),
+        });
+    }
+    let mut futs: Vec<Pin<Box<dyn Future<Output = (String, String)> + '_>>> = vec![];
     for (i, s) in specs.iter().enumerate() {
         let c = &clients[i];
         let client = &client;
         let (rt, u, p, at) = (&rt, &u, &p, &at);
-        let f: Pin<Box<dyn Future<Output = String> + '_>> = match s.kind.as_str() {
-            "code" => Box::pin(async move { render_result(client.exchange_code(AuthorizationCode::new("c".to_string())).request_async(c).await, |v| okv(render_token(v), v)) }),
-            "refresh" => Box::pin(async move { render_result(client.exchange_refresh_token(rt).request_async(c).await, |v| okv(render_token(v), v)) }),
-            "password" => Box::pin(async move { render_result(client.exchange_password(u, p).request_async(c).await, |v| okv(render_token(v), v)) }),
-            "cc" => Box::pin(async move { render_result(client.exchange_client_credentials().request_async(c).await, |v| okv(render_token(v), v)) }),
-            "introspect" => Box::pin(async move { render_result(client.introspect(at).request_async(c).await, |v| okv(render_intro(v), v)) }),
+        macro_rules! fut {
+            ($req:expr, $okf:expr) => {
+                Box::pin(async move {
+                    let r = $req.request_async(c).await;
+                    let full = full_text(&r);
+                    (render_result(r, $okf), full)
+                })
+            };
+        }
+        let f: Pin<Box<dyn Future<Output = (String, String)> + '_>> = match s.kind.as_str() {
+            "code" => fut!(client.exchange_code(AuthorizationCode::new("c".to_string())), |v| okv(render_token(v), v)),
+            "refresh" => fut!(client.exchange_refresh_token(rt), |v| okv(render_token(v), v)),
+            "password" => fut!(client.exchange_password(u, p), |v| okv(render_token(v), v)),
+            "cc" => fut!(client.exchange_client_credentials(), |v| okv(render_token(v), v)),
+            "introspect" => fut!(client.introspect(at), |v| okv(render_intro(v), v)),
             "devauth" => Box::pin(async move {
                 let r: Result<StandardDeviceAuthorizationResponse, _> = client.exchange_device_code().request_async(c).await;
-                render_result(r, |v| okv(render_dev(v), v))
+                let full = full_text(&r);
+                (render_result(r, |v| okv(render_dev(v), v)), full)
             }),
             "revoke" => Box::pin(async move {
                 let req = client.revoke_token(StandardRevocableToken::AccessToken(AccessToken::new("t".to_string()))).unwrap();
-                render_result(req.request_async(c).await, |_v| "ok unit".to_string())
+                let r = req.request_async(c).await;
+                let full = full_text(&r);
+                (render_result(r, |_v| "ok unit".to_string()), full)
             }),
             _ => return BAD.into(),
         };
@@ -581,8 +625,8 @@ pub fn interleave(ws: &[&str]) -> String {
     let waker = Waker::from(Arc::new(Noop));
     let mut cx = Context::from_waker(&waker);
     let n = futs.len();
-    let mut done: Vec<Option<String>> = vec![None; n];
-    let mut poll_one = |i: usize, futs: &mut Vec<Pin<Box<dyn Future<Output = String> + '_>>>, done: &mut Vec<Option<String>>| {
+    let mut done: Vec<Option<(String, String)>> = vec![None; n];
+    let mut poll_one = |i: usize, futs: &mut Vec<Pin<Box<dyn Future<Output = (String, String)> + '_>>>, done: &mut Vec<Option<(String, String)>>| {
         if i < n && done[i].is_none() {
             if let Poll::Ready(s) = futs[i].as_mut().poll(&mut cx) {
                 done[i] = Some(s);
@@ -602,9 +646,20 @@ pub fn interleave(ws: &[&str]) -> String {
             return "HANG".into();
         }
     }
+    for (i, d) in done.iter().enumerate() {
+        let full = &d.as_ref().unwrap().1;
+        if *full != alone[i] {
+            return format!(
+                "differs-from-alone request={} alone={} interleaved={}",
+                i,
+                tok_bytes(alone[i].as_bytes()),
+                tok_bytes(full.as_bytes())
+            );
+        }
+    }
     done.into_iter()
         .enumerate()
-        .map(|(i, d)| format!("{} calls={}", d.unwrap(), calls[i].get()))
+        .map(|(i, d)| format!("{} calls={}", d.unwrap().0, calls[i].get()))
         .collect::<Vec<_>>()
         .join(" || ")
 }
